@@ -41,7 +41,7 @@ MANIFEST = dict(
     "library generator (row != ['']) or csv.writer produces from a row without line breaks, the model of csv.reader "
     "(strict, excel dialect, given delimiter) and parse_complex_csv_line both return the row), C14_reader_vs_parse (on an "
     "arbitrary physical line the two differ exactly when the last quoted field is left open - library accepts, csv.reader "
-    "raises csv.Error - and in the exception class, ValueError vs csv.Error), C14_reader_blank_line ([] vs ['']), "
+    "raises csv.Error; C14_reader_open_quote_closed: with the closing quote added csv.reader returns the library's fields - and in the exception class, ValueError vs csv.Error), C14_reader_blank_line ([] vs ['']), "
     "counter-examples C14_reader_open_quote_cex / C14_reader_lone_empty_cex, C14_reader_reads_saved_file (csv.reader over the "
     "saved file returns header + rows). load_native_csv (csv.DictReader): C14_native_header_given_both, C14_native_names_only, "
     "C14_native_header_from_file (column_names=None, after fix C14-f also with the default contains_header=True), "
